@@ -4,6 +4,7 @@
 pub mod battery;
 pub mod case;
 pub mod exec;
+pub mod fmtgen;
 pub mod gen;
 pub mod history;
 pub mod judge;
